@@ -84,6 +84,53 @@ func registerAbstractBytes2(pkg, typ string) {
 	abstractBytes2[modPath+"/"+pkg+"."+typ] = true
 }
 
+// registerAbstractCtor2: a function that returns an abstract-bytes interface value holding exactly
+// its single []byte argument (trusted; discharge it by also translating the implementation's Len /
+// AppendTo and proving them equal to go_len / ++, as Bridge2Frames.v does for wire.rawFrameBody).
+var abstractCtor2 = map[string]bool{}
+
+func registerAbstractCtor2(pkg, fn string) { abstractCtor2[modPath+"/"+pkg+"."+fn] = true }
+
+// registerSum2: a closed interface modelled as a sum type of the listed implementations ("T" or
+// "*T", struct types of translated packages); nil is its own constructor. Method calls on a value
+// of the interface dispatch on the constructor (nil receiver = GPanic).
+type sumInfo struct {
+	pkg, name string
+	impls     []string
+}
+
+var sums2 = map[string]*sumInfo{}
+
+func registerSum2(pkg, iface string, impls []string) {
+	sums2[modPath+"/"+pkg+"."+iface] = &sumInfo{pkg: pkg, name: iface, impls: impls}
+}
+
+func sumOf(ty types.Type) *sumInfo {
+	n, ok := ty.(*types.Named)
+	if !ok || n.Obj().Pkg() == nil {
+		return nil
+	}
+	if _, isI := n.Underlying().(*types.Interface); !isI {
+		return nil
+	}
+	return sums2[n.Obj().Pkg().Path()+"."+n.Obj().Name()]
+}
+
+// implName: "T" / "*T" of a struct (pointer) type, "" otherwise.
+func implName(ty types.Type) string {
+	if n, _, ok := namedStruct(ty); ok {
+		return n.Obj().Name()
+	}
+	if n, ok := ptrStruct(ty); ok {
+		return "*" + n.Obj().Name()
+	}
+	return ""
+}
+
+func sumCtor(si *sumInfo, impl string) string {
+	return si.name + "_" + strings.TrimPrefix(impl, "*")
+}
+
 type fnInfo struct {
 	mod, name string
 	decl      *ast.FuncDecl
@@ -109,6 +156,8 @@ type v2 struct {
 	recOf map[string][]*recInfo // per module, in dependency order
 	mods  map[string]string     // package path -> module name
 	deps  map[string]map[string]bool // module -> modules it refers to
+	sumDecl map[string][]string      // module -> Inductive declarations of the sum interfaces used
+	sumSeen map[*sumInfo]bool
 	errs  []string
 }
 
@@ -263,6 +312,9 @@ func (t *tr2) typeOK(ty types.Type) bool {
 	if _, ok := atomicKind(ty); ok {
 		return true
 	}
+	if si := sumOf(ty); si != nil {
+		return t.g.mods[modPath+"/"+si.pkg] != ""
+	}
 	if n, _, ok := namedStruct(ty); ok {
 		return t.g.mods[n.Obj().Pkg().Path()] != ""
 	}
@@ -325,6 +377,10 @@ func (t *tr2) ctype(n ast.Node, ty types.Type) string {
 	if isErrorType(ty) {
 		return "goerror"
 	}
+	if si := sumOf(ty); si != nil && t.typeOK(ty) {
+		t.useSum(n, si, ty)
+		return t.q(t.g.mods[modPath+"/"+si.pkg], si.name)
+	}
 	if nn, _, ok := namedStruct(ty); ok && t.typeOK(ty) {
 		r := t.record(nn)
 		return t.q(r.mod, r.name)
@@ -368,6 +424,10 @@ func (t *tr2) zero(n ast.Node, ty types.Type) string {
 	}
 	if isErrorType(ty) {
 		return "ErrNil"
+	}
+	if si := sumOf(ty); si != nil && t.typeOK(ty) {
+		t.useSum(n, si, ty)
+		return t.q(t.g.mods[modPath+"/"+si.pkg], si.name+"_nil")
 	}
 	if nn, st, ok := namedStruct(ty); ok && t.typeOK(ty) {
 		r := t.record(nn)
@@ -419,7 +479,8 @@ func recvTypeName(fd *ast.FuncDecl) string {
 
 func runV2(ci *chainImporter, repo, outPath, manifestPath string) int {
 	g := &v2{ci: ci, fset: ci.fset, fns: map[*types.Func]*fnInfo{}, recs: map[*types.TypeName]*recInfo{},
-		recOf: map[string][]*recInfo{}, mods: map[string]string{}, deps: map[string]map[string]bool{}}
+		recOf: map[string][]*recInfo{}, mods: map[string]string{}, deps: map[string]map[string]bool{},
+		sumDecl: map[string][]string{}, sumSeen: map[*sumInfo]bool{}}
 	var items []genItem
 
 	// pass 1: load packages, resolve the whitelisted declarations
@@ -542,6 +603,9 @@ func runV2(ci *chainImporter, repo, outPath, manifestPath string) int {
 		fmt.Fprintf(&out, "Module %s.\n\n", mod)
 		for _, r := range g.recOf[mod] {
 			out.WriteString(r.emit(ps.t))
+		}
+		for _, d := range g.sumDecl[mod] {
+			out.WriteString(d)
 		}
 		out.Write(bodies[mod].Bytes())
 		fmt.Fprintf(&out, "End %s.\n\n", mod)
@@ -816,4 +880,36 @@ func (t *tr2) writesReceiver(fd *ast.FuncDecl) bool {
 		}
 	}
 	return false
+}
+
+// useSum declares the Inductive of a sum interface (once), in the module of its package.
+func (t *tr2) useSum(n ast.Node, si *sumInfo, ty types.Type) {
+	if t.g.sumSeen[si] {
+		return
+	}
+	t.g.sumSeen[si] = true
+	mod := t.g.mods[modPath+"/"+si.pkg]
+	pkg := ty.(*types.Named).Obj().Pkg()
+	var b strings.Builder
+	fmt.Fprintf(&b, "(* interface %s as the sum of its registered implementations *)\nInductive %s :=\n| %s_nil", si.name, si.name, si.name)
+	for _, impl := range si.impls {
+		tn, _ := pkg.Scope().Lookup(strings.TrimPrefix(impl, "*")).(*types.TypeName)
+		if tn == nil {
+			t.fail(n, "sum interface %s: implementation %s not found", si.name, impl)
+			continue
+		}
+		nn, _, ok := namedStruct(tn.Type())
+		if !ok {
+			t.fail(n, "sum interface %s: implementation %s is not a struct type", si.name, impl)
+			continue
+		}
+		r := t.record(nn)
+		arg := r.name
+		if strings.HasPrefix(impl, "*") {
+			arg = "(option " + r.name + ")"
+		}
+		fmt.Fprintf(&b, "\n| %s (v_ : %s)", sumCtor(si, impl), arg)
+	}
+	b.WriteString(".\n\n")
+	t.g.sumDecl[mod] = append(t.g.sumDecl[mod], b.String())
 }
